@@ -40,6 +40,8 @@ static void issue(L* l, int kind, int tid, int seq)
   static constexpr MacroMetadata md_missing{"sc.cpp:11", "fn", "{}.{}|missing {}", nullptr, LogLevel::Info, MacroMetadata::Event::Log};
   static constexpr MacroMetadata md_thrower{"sc.cpp:12", "fn", "{}.{}|{}", nullptr, LogLevel::Info, MacroMetadata::Event::Log};
   static constexpr MacroMetadata md_bt{"sc.cpp:13", "fn", "{}.{}|bt", nullptr, LogLevel::Backtrace, MacroMetadata::Event::Log};
+  static constexpr MacroMetadata md_named{"sc.cpp:14", "fn", "{t}.{s}|ok named {k}", nullptr, LogLevel::Info, MacroMetadata::Event::Log};
+  static constexpr MacroMetadata md_zero{"sc.cpp:15", "fn", "{}.{}|zeroargs", nullptr, LogLevel::Info, MacroMetadata::Event::Log};
   switch (kind)
   {
   case 0: l->template log_statement<false, false>(LogLevel::None, &md_ok, tid, seq); break;
@@ -47,7 +49,9 @@ static void issue(L* l, int kind, int tid, int seq)
   case 2:
   case 3:
   case 4: l->template log_statement<false, false>(LogLevel::None, &md_thrower, tid, seq, Thrower{kind - 1, seq}); break;
-  default: l->template log_statement<false, false>(LogLevel::None, &md_bt, tid, seq); break;
+  case 5: l->template log_statement<false, false>(LogLevel::None, &md_bt, tid, seq); break;
+  case 6: l->template log_statement<false, false>(LogLevel::None, &md_named, tid, seq, 77); break; // well formed, named argument
+  default: l->template log_statement<false, false>(LogLevel::None, &md_zero); break;               // placeholders but no arguments at all
   }
 }
 
@@ -62,6 +66,8 @@ static Scenario make_c10(std::map<std::string, long> const&)
   sc.setup = [la, lb](World& w, Scenario const& s)
   {
     w.backend_options.transit_event_buffer_initial_capacity = static_cast<size_t>(s.c("tbuf", 2));
+    w.backend_options.transit_events_soft_limit = static_cast<size_t>(s.c("soft", 4096));
+    w.backend_options.transit_events_hard_limit = static_cast<size_t>(s.c("hard", 32768));
     auto s1 = std::make_shared<RecSink>(1);
     auto s2 = std::make_shared<RecSink>(2);
     long const w1 = s.c("s1w", 0), f1 = s.c("s1f", 0), w2 = s.c("s2w", 0);
@@ -100,8 +106,8 @@ static Scenario make_c10(std::map<std::string, long> const&)
       long const n = s.c("n", 3);
       for (int seq = 1; seq <= n; ++seq)
       {
-        int const kind = static_cast<int>(h % 6);
-        h /= 6;
+        int const kind = static_cast<int>(h % 8);
+        h /= 8;
         point();
         issue(*la, kind, 1, seq);
         w.events.push_back("issued 1." + std::to_string(seq) + " kind " + std::to_string(kind));
@@ -156,7 +162,7 @@ static Scenario make_c10(std::map<std::string, long> const&)
       std::string id = e.substr(7, e.find(' ', 7) - 7);
       int const kind = atoi(e.c_str() + e.rfind(' ') + 1);
       int const t = atoi(id.c_str());
-      if (kind != 0)
+      if (kind != 0 && kind != 6)
       {
         ++format_faults;
         continue;
@@ -208,6 +214,15 @@ static Scenario make_c10(std::map<std::string, long> const&)
       cmp(1, filter_ok(1), ok1);
       cmp(2, filter_ok(2), ok2);
     }
+    // named arguments belong to the statement that carried them and to nothing else
+    for (int sink : {1, 2})
+      for (auto const* r : w.of_sink(sink))
+      {
+        bool const named = r->msg.find("|ok named") != std::string::npos;
+        std::string const want = named ? "t=" + r->msg.substr(0, r->msg.find('.')) + ",s=" + r->msg.substr(r->msg.find('.') + 1, r->msg.find('|') - r->msg.find('.') - 1) + ",k=77," : "";
+        if (r->msg.find("|ok") != std::string::npos && r->nargs != want)
+          w.fail("named-args-of-another-statement", "sink " + std::to_string(sink) + " received '" + r->msg + "' with named arguments '" + r->nargs + "' expected '" + want + "'");
+      }
     // faulty statements: with error text or not at all - never as garbage
     for (int sink : {1, 2})
       for (auto const* r : w.of_sink(sink))
